@@ -526,10 +526,16 @@ impl TryFrom<NaiveDateTime> for IntervalDT {
 
     #[inline]
     fn try_from(dt: NaiveDateTime) -> Result<Self> {
+        // A parsed fraction may round up to one whole second, carry it as `Time` does.
+        if dt.usec > USECONDS_PER_SECOND as u32 {
+            return Err(Error::InvalidFraction);
+        }
+        let interval = IntervalDT::try_from_dhms(dt.day, dt.hour, dt.minute, dt.sec, 0)?;
+        let interval = IntervalDT::try_from_usecs(interval.usecs() + dt.usec as i64)?;
         if dt.negative {
-            Ok(IntervalDT::try_from_dhms(dt.day, dt.hour, dt.minute, dt.sec, dt.usec)?.negate())
+            Ok(interval.negate())
         } else {
-            IntervalDT::try_from_dhms(dt.day, dt.hour, dt.minute, dt.sec, dt.usec)
+            Ok(interval)
         }
     }
 }
